@@ -28,7 +28,7 @@ ASSUMPTIONS = [
 DEPTH = {"quick": 3, "thorough": 4}
 T0 = 1_700_000_000.0
 MODS = [("same", 1.0), ("same", 3600.0), ("other", 0.0), ("other", 1.0), ("other", 3600.0), ("touch", 1.0), ("touch", 3600.0), ("restore", 1.0)]
-FORMS = ["etag", "lm", "both", "list", "weak", "weak-list", "weak-list-nospace", "star", "both-reversed", "head:etag", "head:both-reversed", "head:star", "list-20", "weak-list-40", "list-latin1"]
+FORMS = ["etag", "lm", "both", "list", "weak", "weak-list", "weak-list-nospace", "star", "both-reversed", "head:etag", "head:both-reversed", "head:star", "list-20", "weak-list-40", "list-latin1", "list-empty-member", "list-leading-comma", "weak-list-empty-members"]
 
 
 class VStat:
@@ -150,9 +150,10 @@ class World:
             os.environ["TZ"] = "UTC"
             _time.tzset()
 
-    def request(self, key, headers, method="GET"):
+    def request(self, key, headers, method="GET", fname=None):
         iface, kind = key
-        path = "/" + self.fname if kind == "Files" else "/" + self.fname[:-len(".html")]
+        fname = fname or self.fname
+        path = "/" + fname if kind == "Files" else "/" + fname[:-len(".html")]
         req = SV.AReq(method=method, path=path, headers=headers)
         app = self.apps[key]
         if iface == "wsgi":
@@ -171,6 +172,12 @@ def validator_headers(form, v):
         return [("If-Modified-Since", lm), ("If-None-Match", et)]
     if form == "list-latin1":  # another member carries a byte above 0x7F that is not UTF-8
         return [("If-None-Match", f'"caf\xe9", {et}')]
+    if form == "list-empty-member":  # RFC 9110 5.6.1: a recipient accepts (and ignores) empty list elements
+        return [("If-None-Match", f'"zzz", , {et}')]
+    if form == "list-leading-comma":
+        return [("If-None-Match", f', {et}')]
+    if form == "weak-list-empty-members":
+        return [("If-None-Match", f'W/"zzz",,W/{et},')]
     if form == "list-20":  # a long list with the tag at the end
         return [("If-None-Match", ", ".join([f'"other{i}"' for i in range(19)] + [et]))]
     if form == "weak-list-40":
@@ -305,12 +312,22 @@ def thread_pairs(r, kind, tier):
             "current-etag": validator_headers("etag", new), "star": validator_headers("star", new), "current-lm": validator_headers("lm", new),
         }
 
+        # a second file in the same directory (other size, other time): requests for it run beside requests for the first
+        second = "second.html"
+        with open(os.path.join(w.dir, second), "wb") as f:
+            f.write(b"second file, 24 bytes...")
+        w.vstat.table[os.path.realpath(os.path.join(w.dir, second))] = (w.clock - 777.0, w.clock - 777.0)
+        sec = w.request(key, [], fname=second)
+        reqs.update({"second:none": [], "second:etag": validator_headers("etag", {"etag": sec.header("etag"), "lm": sec.header("last-modified")}),
+                     "second:stale-etag": validator_headers("etag", old)})
+
         def obs(res):
             return (res.status, res.body, res.header("etag"), type(res.exc).__name__ if res.exc else None)
-        solo = {k: obs(w.request(key, h)) for k, h in reqs.items()}
+        go = lambda name: obs(w.request(key, reqs[name], fname=second if name.startswith("second:") else None))
+        solo = {k: go(k) for k in reqs}
         for a in ("stale-etag", "stale-both", "stale-lm", "none"):
-            for b in ("current-etag", "star", "current-lm"):
-                jobs = [lambda a=a: obs(w.request(key, reqs[a])), lambda b=b: obs(w.request(key, reqs[b]))]
+            for b in ("current-etag", "star", "current-lm") + (("second:none", "second:etag") if a in ("none", "stale-etag") or tier == "thorough" else ()):
+                jobs = [lambda a=a: go(a), lambda b=b: go(b)]
 
                 def on_exec(x):
                     r.count("evaluations")
